@@ -69,9 +69,13 @@ Proof. exact (handles_read_pair_i _ _ _ _ _ C11_entinfo_tables_ok). Qed.
 (* (4) a Bell state reported through qlink-interface 1.0 is decoded by the SDK as the
    state of the same name (both numberings regenerated; finite) *)
 Theorem C11_bell_state_by_name :
+  (* rows: (response class / input kind, qlink state name, name the SDK decodes); the real
+     conversion is tabulated for every qlink Bell state given as enum member and as plain int,
+     for K and M responses: 2 x 2 rows per state *)
   forallb (fun x => String.eqb (snd (fst x)) (snd x)) gen_bell_conv = true /\
-  Nat.eqb (List.length gen_bell_conv) (2 * List.length gen_qlink_BellState) = true.
-Proof. vm_compute. split; reflexivity. Qed.
+  Nat.eqb (List.length gen_bell_conv) (4 * List.length gen_qlink_BellState) = true /\
+  map fst gen_qlink_BellState = map fst (filter (fun nv => existsb (fun q => String.eqb (fst q) (fst nv)) gen_enum_BellState) gen_qlink_BellState).
+Proof. vm_compute. repeat split; reflexivity. Qed.
 
 (* non-vacuity: a measure-directly request with every optional parameter given meets
    api_ok, and the model computes the request the property text describes *)
